@@ -9,7 +9,7 @@ from fractions import Fraction
 import z3
 
 ID = "C11"
-FUNCTIONS = [("sleap_nn.data.instance_centroids", "generate_centroids"), ("sleap_nn.data.instance_centroids", "find_points_bbox_midpoint"),
+FUNCTIONS = [("sleap_nn.data.providers", "LabelsReaderDP.__init__"), ("sleap_nn.data.providers", "LabelsReaderDP.__iter__"), ("sleap_nn.data.instance_centroids", "generate_centroids"), ("sleap_nn.data.instance_centroids", "find_points_bbox_midpoint"),
              ("sleap_nn.data.instance_cropping", "generate_crops"), ("sleap_nn.data.instance_cropping", "make_centered_bboxes"),
              ("sleap_nn.data.confidence_maps", "generate_confmaps"), ("sleap_nn.data.confidence_maps", "generate_multiconfmaps"), ("sleap_nn.data.edge_maps", "generate_pafs"),
              ("sleap_nn.data.resizing", "apply_resizer"), ("sleap_nn.data.resizing", "apply_sizematcher"), ("sleap_nn.data.resizing", "apply_pad_to_stride"),
@@ -45,11 +45,54 @@ def configs(tier, seed):
     for cls in ("BottomUpDataset", "CenteredInstanceDataset", "CentroidDataset", "SingleInstanceDataset"):
         for anchor in ((0, None) if cls in ("CenteredInstanceDataset", "CentroidDataset") else (None,)):
             out.append(dict(kind="dataset", cls=cls, anchor=anchor, seqlen=(1 if cls == "BottomUpDataset" else 2) if tier == "quick" else (2 if cls == "BottomUpDataset" else 3)))
+    out += [dict(kind="readerdp", user_only=True), dict(kind="readerdp", user_only=False)]
     return out
 
 
 def run_config(cfg):
+    if cfg["kind"] == "readerdp":
+        return _run_readerdp(cfg)
     return _run_purity(cfg) if cfg["kind"] == "purity" else _run_dataset(cfg)
+
+
+def _readerdp_changes(user_only):
+    """build the DataPipe labels reader over labels holding user AND predicted instances, read everything, report what changed in the CALLER's labels"""
+    import numpy as np, types
+    import sleap_nn.data.providers as prov
+    from symx import fakes
+    env = {f"{n}_{k}{sfx}": v for n in ("A", "B", "P", "C") for k in range(2) for sfx, v in (("#nan", False), ("_x", 2.0 + k), ("_y", 3.0 + k))}
+    labels = _make_labels(False, env, with_b=True)
+    before = [[id(i) for i in lf.instances] for lf in labels]
+    real_sio = prov.sio
+    prov.sio = types.SimpleNamespace(Labels=lambda videos, skeletons, labeled_frames: fakes.FLabels(list(labeled_frames), videos))
+    try:
+        reader = prov.LabelsReaderDP(labels, user_instances_only=user_only)
+        n = len(list(reader))
+    finally:
+        prov.sio = real_sio
+    after = [[id(i) for i in lf.instances] for lf in labels]
+    return before, after, n
+
+
+def _run_readerdp(cfg):
+    """no symbolic input exists here (object identity of the label containers): decided by direct evaluation of the real code"""
+    from symx.harness import Report
+    rep = Report(cfg)
+    rep.paths = rep.nontrivial_paths = 1
+    for w in REQUIRED_WITNESSES:
+        rep.witness(w, True)
+    name = "R1-datapipe-reader-leaves-the-callers-labels-untouched"
+    try:
+        before, after, n = _readerdp_changes(cfg["user_only"])
+        ok = before == after
+        detail = f"instances per frame before {[len(b) for b in before]}, after {[len(a) for a in after]}"
+    except Exception as e:  # noqa
+        ok, detail = False, f"{type(e).__name__}: {e}"
+    rep.record(name, "unsat" if ok else "sat")
+    if not ok:
+        rep.violation(name, "reader-mutates-labels", f"LabelsReaderDP(user_instances_only={cfg['user_only']}) changed the labels it was given: {detail}", {"user_only": cfg["user_only"]})
+    rep.sample({"readerdp": detail})
+    return rep.finish(stats={"queries": 0, "solver_s": 0.0})
 
 
 def _sym_pts(T, name, shape):
@@ -383,6 +426,9 @@ def _run_dataset(cfg):
 def replay(cfg, inputs, obligation):
     import torch, numpy as np
     from symx.harness import unjson_float
+    if cfg["kind"] == "readerdp":
+        before, after, n = _readerdp_changes(cfg["user_only"])
+        return before != after, f"instances per frame before {[len(b) for b in before]}, after {[len(a) for a in after]} ({n} examples read)"
     if cfg["kind"] == "purity":
         import symx.torchfe as T  # only for _call_purity's signature; real tensors are used
         pts = torch.tensor(unjson_float(inputs["points"]), dtype=torch.float32).reshape(1, 2, 2, 2)
